@@ -4,6 +4,7 @@ import ClairModel.Model.RpmHeader
 import ClairModel.Model.RpmDb
 import ClairModel.Model.RpmFiles
 import ClairModel.Model.DockerLex
+import ClairModel.Model.TarLinks
 
 /-!
   Model driver of property C06.  One answer line per operation line:
@@ -13,6 +14,7 @@ import ClairModel.Model.DockerLex
     rpmhdr <hex>   rpm Header.Parse + Info.Load on the header blob
     bdb <hex>      rpm/bdb PackageDB.Parse + AllHeaders (size and byte sum of every header handed out)
     ndb <hex>      rpm/ndb PackageDB.Parse + AllHeaders
+    links <spec>   tarfs Open of every member of an archive of root-level regular files (r), symbolic links (s<i>) and hard links (h<i>), e.g. r.s0.h5
     dlex <esc> <hex>  the Dockerfile lexer with escape rune <esc> (decimal code point), to the first EOF/Error item
 -/
 namespace Driver.C06
@@ -89,6 +91,24 @@ def doDlex (esc : Nat) (bs : List UInt8) : String :=
   let items := DockerLex.lex esc bs
   s!"n={items.length} " ++ " ".intercalate (items.map renderItem)
 
+def parseKind (w : String) : Option TarLinks.Kind :=
+  if w == "r" then some .reg
+  else match w.toList with
+    | 's' :: ds => (String.ofList ds).toNat?.map .sym
+    | 'h' :: ds => (String.ofList ds).toNat?.map .hard
+    | _ => none
+
+def doLinks (spec : String) : String :=
+  match (spec.splitOn ".").mapM parseKind with
+  | none => "bad-op"
+  | some a =>
+    let outs := (List.range a.length).map fun i =>
+      match (TarLinks.openMember a i).1 with
+      | .file => "file"
+      | .notExist => "err:notexist"
+      | .invalid => "err:invalid"
+    ",".intercalate outs
+
 def stepLine (s : Unit) (l : String) : Unit × String :=
   if l == "reset" then (s, "ok") else
   match Driver.words l with
@@ -108,6 +128,7 @@ def stepLine (s : Unit) (l : String) : Unit × String :=
     match Driver.unhex h with
     | none => (s, "bad-op")
     | some bs => (s, renderDb bs (RpmDb.Ndb.allHeaders bs))
+  | ["links", spec] => (s, doLinks spec)
   | ["dlex", e, h] =>
     match e.toNat?, Driver.unhex h with
     | some esc, some bs => (s, doDlex esc bs)
